@@ -385,13 +385,41 @@ class Gen:
         self.feat("augassign")
         n = self.choice(nm)
         if t == "int":
-            op = self.choice(["+=", "-=", "*="])
-            rhs = self.int_lit(0, 3) if op == "*=" else self.e_int(1)
+            ops = ["+=", "-=", "*="]
+            if self.p.on("floordiv_mod_neg"):
+                ops += ["//=", "%=", "//=", "%="]
+            if self.p.on("aug_bitops"):
+                ops += ["&=", "|=", "^="]
+            op = self.choice(ops)
+            if op in ("//=", "%="):
+                # the augmented forms of the signed division classes: literal (either sign) or run-time non-zero divisor
+                self.feat("aug_floordiv_mod")
+                rhs = self.choice([str(v) for v in (-7, -3, -2, 2, 3, 5, 9)] + [f"(abs({self.e_int(0)}) % 5 + 2)"])
+            elif op in ("&=", "|=", "^="):
+                self.feat("aug_bitop")
+                rhs = self.int_lit(0, 15)
+            else:
+                rhs = self.int_lit(0, 3) if op == "*=" else self.e_int(1)
         elif t == "float":
-            op = self.choice(["+=", "-=", "*="])
-            rhs = self.choice(["0.5", "2.0", "0.25"]) if op == "*=" else self.e_float(1)
+            ops = ["+=", "-=", "*="]
+            if self.p.on("floordiv_mod_neg"):
+                ops += ["/=", "//=", "%="]
+            op = self.choice(ops)
+            if op == "/=":
+                self.feat("aug_float_div")
+                rhs = self.choice(["2.0", "4.0", "-2.0", "2", "-4"])
+            elif op in ("//=", "%="):
+                self.feat("aug_float_floordiv_mod")
+                rhs = self.choice(["2.0", "0.5", "-2.0", "4", "-1.5", "3"])
+            else:
+                rhs = self.choice(["0.5", "2.0", "0.25"]) if op == "*=" else self.e_float(1)
         else:
             op, rhs = "+=", self.choice([self.str_lit(), f"str({self.e_int(1)})"])
+        if op in ("//=", "%=", "/=") and self.d(st.integers(0, 1)):
+            # operand driven below zero first, result observed right after: the signed cases of the augmented forms
+            self.feat("aug_signed_observed")
+            step = "7.5" if t == "float" else self.int_lit(5, 40)
+            return [("s", f"{n} -= {step}"), ("s", f"{n} {op} {rhs}"), ("s", f"mon.write({n})")]
         return [("s", f"{n} {op} {rhs}")]
 
     def s_swap(self, depth, loop_depth, in_main):
